@@ -51,16 +51,17 @@ def tasks(tier):
 
 # ------------------------------------------------------------------------------------------
 class LatticeMesh:
-    """points on the lattice {0, 1/2, 1}^dim plus one point without cells (coordinates 2, 2, 2)"""
+    """points on the lattice {0, 1/2, 1}^dim plus one point without cells (coordinates 2, 3, 4)"""
 
     def __init__(self, dim, orphan="last"):
         self.dim = dim
         vals = [Fraction(0), Fraction(1, 2), Fraction(1)]
         pts = [list(p) for p in itertools.product(vals, repeat=dim)]
+        far = [Fraction(2 + k) for k in range(dim)]  # the largest coordinate differs from axis to axis
         if orphan == "first":
-            pts.insert(0, [Fraction(2)] * dim)
+            pts.insert(0, far)
         else:
-            pts.append([Fraction(2)] * dim)
+            pts.append(far)
         self.coords = pts
         self.points = npmodel.array(pts, dtype=npmodel.DType("float"))
         self.npoints = len(pts)
@@ -257,6 +258,14 @@ def run_partition(col, dim, orphan="last"):
         d3 = {(p, 0) for p in selected_points(mesh, dict(fx=Fraction(1)))}
         run_case("overlap %d+%d+dual" % (k1, k2), {"one": b1, "dual": b3, "two": b2},
                  [(0, d1, lambda kk, p, i, o: v1), (1, d3, lambda kk, p, i, o: v3), (0, d2, lambda kk, p, i, o: v2)])
+    # boundaries on the scalar (dual) field: the coordinate predicates are those of the *mesh* dimension, whatever the field's dimension
+    for k, (kw, sel) in enumerate([(dict(fy=1), dict(fy=Fraction(1))), (dict(fx=0, fy=H, mode="and"), dict(fx=Fraction(0), fy=H, mode="and")),
+                                   (dict(fx=1, fy=0, mode="or"), dict(fx=Fraction(1), fy=Fraction(0), mode="or"))]
+                                  + ([(dict(fz=H), dict(fz=H)), (dict(fy=0, fz=1, mode="and"), dict(fy=Fraction(0), fz=Fraction(1), mode="and"))] if dim == 3 else [])):
+        val = sym("q%d" % k)
+        b = it.call(B, [fields[1]], dict(value=val, **kw))
+        pts = selected_points(mesh, sel)
+        run_case("scalar field %s" % kw, {"b": b}, [(1, {(p, 0) for p in pts}, lambda kk, p, i, order, val=val: val)])
     # point mask and dof mask, array values
     pm = np.array([p % 3 == 0 for p in range(mesh.npoints)])
     for skip in skips:
@@ -291,7 +300,8 @@ def run_loadcases(col, dim, orphan="last"):
     n0 = mesh.npoints * dim
     U = fields[0].attrs["values"]
     uflat = npmodel.to_obj(U).reshape(-1).tolist() + npmodel.to_obj(fields[1].attrs["values"]).reshape(-1).tolist()
-    lo, hi = Fraction(0), Fraction(2)  # min / max coordinate (the point without cells sits at 2): used when left/right are not given
+    lo = Fraction(0)  # min / max coordinate per axis (the point without cells sits at (2, 3, 4)): used when left/right are not given
+    hi = [Fraction(2 + k) for k in range(dim)]
     count = 0
     mod = "felupe.dof._loadcase:"
     miss = [dim * mesh.orphan + i for i in range(dim)] + [n0 + mesh.orphan]
@@ -342,7 +352,7 @@ def run_loadcases(col, dim, orphan="last"):
             for symflags in symsets + [True, False]:
                 for given in (False, True):
                     kw = dict(move=move, axis=axis, clamped=clamped, sym=symflags)
-                    left, right = lo, hi
+                    left, right = lo, hi[axis]
                     if given:
                         kw.update(left=Fraction(1, 2), right=1)
                         left, right = Fraction(1, 2), Fraction(1)
@@ -382,7 +392,7 @@ def run_loadcases(col, dim, orphan="last"):
                             pres[dim * p + ax] = -mv
                 for i_, (ax, mv, cl) in enumerate(zip(axes, (m0, m1), clampes)):
                     if cl:
-                        for p in face(ax, hi):
+                        for p in face(ax, hi[ax]):
                             for i in range(dim):
                                 if i != ax:
                                     pres[dim * p + i] = ZERO
@@ -391,7 +401,7 @@ def run_loadcases(col, dim, orphan="last"):
                                 for i in range(dim):
                                     if i != ax:
                                         pres[dim * p + i] = ZERO
-                    for p in face(ax, hi):
+                    for p in face(ax, hi[ax]):
                         pres[dim * p + ax] = mv
                 compare("axes=%s clampes=%s sym=%s" % (axes, clampes, symflags), lc, pres, "biaxial")
     # shear
@@ -401,7 +411,7 @@ def run_loadcases(col, dim, orphan="last"):
         for symflag in (True, False):
             for given in (False, True):
                 kw = dict(moves=(s0, s1, s2), axes=axes, sym=symflag)
-                bottom, top = lo, hi
+                bottom, top = lo, hi[axes[1]]
                 if given:
                     kw.update(bottom=0, top=1)
                     bottom, top = Fraction(0), Fraction(1)
